@@ -6,11 +6,11 @@ CONSTANTS
  MaxW = 64
  MaxN = 7
  OntoN = 6
- PairN = 6
- NaiveN = 5
+ PairN = 5
+ NaiveN = 4
  MaxRotN = 64
- MaxResM = 33
- MaxResE = 4
+ MaxResM = 17
+ MaxResE = 3
  NumLen = 1
  ProcN = 0
 INVARIANT Holds
